@@ -40,3 +40,19 @@ AMEND = {
         technique="Kani/CBMC symbolic execution of the real generic code at reduced width + MIR->SMT-LIB2 (z3, cvc5 cross-check) of the same function at full u128 width",
         engine="kani+mir2smt"),
 }
+
+# E2-only claims merged from mir2smt/claims_proposed.py
+CLAIMED.update({
+    'C24': dict(
+        text=BOUNDED + 'E2, full width: the MIR of the real PriceValidator::{validate_one, merge_range, finish} and SmallPrices::from_price for every i64 timestamp / clock, u64 max-age / range / future-excess / slot, u32 timestamp adjustment and deviation ratio, u32 price values (validate_one per (min, max) multiplier pair: quick 21 equal pairs + 2, thorough all 441), from an arbitrary accumulated range state. validate_one: Ok exactly when the accessors succeed, oracle_ts - adj + max_age >= now without i64 overflow, min(now + excess, i64::MAX) >= oracle_ts, and (no deviation configured, or D = floor(R*ratio*10^12/10^20) = 0, or both |p - R| <= ceil(D/10^m_max)*10^m_max); on Ok the range state becomes the merge with (slot, ts, ts), ts = oracle_ts - adj, on Err it is unchanged; merge_range = (min slot, min ts, max ts); finish: Ok exactly when 0 <= max_ts - min_ts <= range; from_price: Ok exactly when multipliers are equal and 0 < min.value <= max.value, storing them unchanged; no panic.',
+        note="KNOWN FINDING (by design, reproduced natively, key c24_deviation_rounded_up_to_grid_or_skipped_at_zero): the literal |p - R| <= D is exceeded by less than one grid step of p.max because D is rounded up to that grid, and the check is skipped altogether when D == 0; outside that region (D > 0 a multiple of the grid step) the literal clause is decided. TokenConfig accessors abstract; provider / feed identity, clock sysvar and Oracle::with_prices_opts clearing not encoded. Trusted: rustc's MIR dump, the translator in /verif/mir2smt and its callee models (listed in the evidence), z3 (cvc5 cross-check best-effort, counts in the evidence).",
+        technique=_E2, design='C24', engine="mir2smt"),
+    'C29': dict(
+        text=BOUNDED + "E2, full width: the MIR of the real try_adjust_price_with_max_deviation_factor (with Price::<u128>::from(&Price), Price::checked_mid, Decimal::to_unit_price / with_unit_price, apply_factor / <u128 as MulDiv>::checked_mul_div inlined from gmsol-model's and gmsol-utils' MIR) for every u32 value of min / max / reference, every reference multiplier <= 20, explicit and mid reference, every u128 factor, per pair of (min, max) multipliers (quick: the 21 equal pairs + 4 unequal; thorough: all 441). Decided: the reference R and deviation D = floor(R*factor/10^20) the code uses are the defined ones; Some(p) keeps both multipliers, leaves a side inside [R-D, R+D] untouched, sets an out-of-band max to floor((R+D)/10^m) and an out-of-band min to ceil((R-D)/10^m); None exactly when nothing is out of band or D / R+D / R-D / a rounded value does not fit; no panic. R-D <= p.min <= p.max <= R+D holds whenever min and max use the same multiplier and the grid step 10^m of every adjusted side is <= 2D+1.",
+        note="KNOWN FINDING (reproduced natively, keys c29_out_of_band_on_coarse_or_unequal_grid / c29_inverted_on_coarse_or_unequal_grid): when the grid step of an adjusted side exceeds the band width (10^m > 2D+1, e.g. D = 0) or min / max carry different multipliers, the rounded bound can leave the band or invert the price, e.g. factor 0, min = 1e8, max = 4294967294e8 (m = 8, mid reference) gives min = 2147483648e8 > max = 2147483647e8. Multipliers <= 20 assumed (C26). try_adjust_price (caller keeps the input on None) and the later validation are not part of this function. Trusted: rustc's MIR dump, the translator in /verif/mir2smt and its callee models (listed in the evidence), z3 (cvc5 cross-check best-effort, counts in the evidence).",
+        technique=_E2, design='C29', engine="mir2smt"),
+    'C30': dict(
+        text=BOUNDED + 'E2, full width: GtState::get_mint_amount (Ok((minted, minted_value, cost)): minted*cost = minted_value <= value, value - minted_value < cost, Err exactly for cost 0 or minted > u64::MAX), GtState::next_minting_cost with the growth loop unrolled 3 times (steps = floor(next/step_amount); cost = the (steps - grow_steps)-fold iterate of c -> floor(c*factor/10^20) from the stored cost, checked both against the tapped intermediate values and against an independently defined ghost chain; Err exactly for a zero step amount or an iterate above u128; `loop bound exceeded` unreachable under the stated bound) and GtState::unchecked_update_rank (rank = number of thresholds among the first max_rank <= 15 that are <= the amount, for every strictly increasing table), no panic. Path independence of the minting cost follows from the iterate characterisation (not decided as a composite).',
+        note="At most 3 new growth steps per call (assumption next < (grow_steps+4)*step); sorted-ranks / max_rank <= 15 invariant assumed (GtState::init). mint_to / burn (clock, supply ledger) and the exchange vault are not encoded by E2. A three-run composite for path independence timed out on some splits and was removed. Trusted: rustc's MIR dump, the translator in /verif/mir2smt and its callee models (listed in the evidence), z3 (cvc5 cross-check best-effort, counts in the evidence).",
+        technique=_E2, design='C30', engine="mir2smt"),
+})
